@@ -19,8 +19,8 @@ ASSUMPTIONS = ['baselines are generated from a polynomial of degree <= the fitte
                'joint-shift clause skipped when the rotated baseline length is within 1e-6 of an integer (np.arange length flips on round-off)',
                'degenerate lines are only required not to raise and to give the configured height']
 N = {'quick': 1500, 'thorough': 100000}
-CLASSES = ['inside', 'inside', 'curved', 'curved', 'partly_outside', 'outside', 'steep', 'short', 'degenerate', 'line_cropper']
-REQUIRED = ['long_lived_cropper_crops', 'crops', 'grids_checked', 'curved_grids', 'pixels_compared', 'general_path_crops', 'fast_path_crops', 'shift_compared', 'degenerate_checked', 'poly0_cubic_lines', 'line_cropper_lines']
+CLASSES = ['inside', 'inside', 'curved', 'curved', 'partly_outside', 'outside', 'steep', 'short', 'degenerate', 'line_cropper', 'many_points']
+REQUIRED = ['line_cropper_second_pass_lines', 'heights_as:float64_array', 'many_point_grids', 'long_lived_cropper_crops', 'crops', 'grids_checked', 'curved_grids', 'pixels_compared', 'general_path_crops', 'fast_path_crops', 'shift_compared', 'degenerate_checked', 'poly0_cubic_lines', 'line_cropper_lines']
 # bounds (see DESIGN.md C10); measured maxima are reported in the evidence as observed_maxima
 B_CHORD = 0.05        # relative non-uniformity of the advance along the baseline row
 B_STEP = 0.02         # relative error of the mean advance vs (h_up+h_down)*scale/H (plus end effect 1/(W-1))
@@ -82,6 +82,9 @@ def gen(rng, i, ctx):
     if cls == 'steep':
         ang = math.radians(float(rng.choice([-1, 1])) * float(rng.uniform(45, 59)))
     L = float(rng.uniform(40, 1500)) if cls != 'short' else float(rng.uniform(40, 80))
+    if cls == 'many_points':
+        npts = int(rng.integers(17, 41))
+        L = max(L, 34.0 * npts)
     npts = max(2, min(npts, int(L // 30)))      # well-separated points: gaps of at least ~30 px
     deg = {0: 3, 1: 1, 2: 2}[poly]
     sag = 0.0
@@ -105,6 +108,11 @@ def gen(rng, i, ctx):
     heights = [float(rng.uniform(4, 60)), float(rng.uniform(2, 20))]
     case = {'cls': cls, 'poly': poly, 'H': H, 'scale': scale, 'baseline': pts.tolist(), 'heights': heights, 'image': str(rng.choice(['smooth', 'checker', 'noise'])),
             'sagitta': sag, 'shift': [int(rng.integers(1, 40)), int(rng.integers(1, 40))]}
+    case['heights_as'] = ['list', 'tuple', 'float64_array', 'float32_array', 'int_array'][int(rng.integers(0, 5))]
+    if case['heights_as'] == 'int_array':
+        case['heights'] = [float(int(h)) for h in heights]
+    if case['heights_as'] == 'float32_array':
+        case['heights'] = [float(np.float32(h)) for h in heights]      # the same numbers in every container
     if cls == 'degenerate':
         kind = str(rng.choice(['single_point', 'identical_points', 'vertical', 'tiny', 'zero_heights', 'zero_up']))
         case['degenerate'] = kind
@@ -142,12 +150,19 @@ def bilinear(img, xy):
             + g(y0 + 1, x0) * ((1 - fx) * fy)[..., None] + g(y0 + 1, x0 + 1) * (fx * fy)[..., None])
 
 
+def heights_object(case):
+    """The heights in the container the callers really use: lists from XML, float64 arrays from the layout engines, ..."""
+    h = case['heights']
+    return {'list': list(h), 'tuple': tuple(h), 'float64_array': np.array(h, dtype=np.float64), 'float32_array': np.array(h, dtype=np.float32),
+            'int_array': np.array(h, dtype=np.int64)}[case.get('heights_as', 'list')]
+
+
 def check(case, mon, ctx):
     import cv2
     cls = case['cls']
     H, poly, scale = case['H'], case['poly'], case['scale']
     pts = np.array(case['baseline'], dtype=np.float64)
-    hh = case['heights']
+    hh = heights_object(case)
     eng = ctx.ce.EngineLineCropper(line_height=H, poly=poly, scale=scale)
     img = image(ctx, case['image'])
     if cls == 'line_cropper':
@@ -165,6 +180,10 @@ def check(case, mon, ctx):
         except BaseException as e:
             crop_old = None
     mon.count('long_lived_cropper_crops')
+    mon.count('heights_as:' + case.get('heights_as', 'list'))
+    if not np.array_equal(np.asarray(hh, dtype=np.float64), np.asarray(heights_object(case), dtype=np.float64)) or not np.array_equal(pts, np.array(case['baseline'], dtype=np.float64)):
+        mon.violation('cropping-leaves-the-line-unchanged', {'heights_given': case['heights'], 'heights_as': case.get('heights_as'), 'heights_after': np.asarray(hh, dtype=np.float64),
+                      'baseline_changed': not np.array_equal(pts, np.array(case['baseline'], dtype=np.float64))})
     if crop_old is None or crop_old.shape != crop.shape or np.abs(crop_old.astype(int) - crop.astype(int)).max(initial=0) > 0:
         mon.violation('crop-independent-of-earlier-crops', {'note': 'a cropper that has cropped other lines before gives a different crop than a fresh one',
                       'fresh_shape': list(crop.shape), 'long_lived_shape': None if crop_old is None else list(crop_old.shape),
@@ -186,8 +205,11 @@ def check(case, mon, ctx):
         name, exc = ctx.swallowed[0]
         mon.violation('non-degenerate-line-is-actually-cropped', {'swallowed_in': name, 'exception': exc, 'crop_shape': list(crop.shape)})
         return
+    hh = [float(x) for x in heights_object(case)]       # pristine values (as rounded by the container's dtype) for the oracle
     c = eng.get_crop_inputs(pts, hh, H).astype(np.float64)
     mon.count('grids_checked')
+    if len(pts) > 16:
+        mon.count('many_point_grids')
     if abs(case['sagitta']) >= 2:
         mon.count('curved_grids')
     Hh, Ww = c.shape[:2]
@@ -265,8 +287,11 @@ def check(case, mon, ctx):
     Rm = np.array([[np.cos(alfa), np.sin(alfa)], [-np.sin(alfa), np.cos(alfa)]])
     loc = pts.astype(int) @ np.linalg.inv(Rm)
     span_x = loc[:, 0].max() - loc[:, 0].min()
+    v_cols = (math.ceil(span_x) - 1) * H / band          # the column count of a straight line before truncation to an integer
     if abs(span_x - round(span_x)) < 1e-6:
         mon.skip_ambiguous('near-integer rotated length')
+    elif abs(v_cols - round(v_cols)) < 1e-6:
+        mon.skip_ambiguous('near-integer column count')   # e.g. integer heights: 903 * 32 / 84 = 344 exactly; int() flips on round-off
     else:
         dx, dy = case['shift']
         big = np.zeros((img.shape[0] + 2 * dy, img.shape[1] + 2 * dx, 3), np.uint8)
@@ -296,7 +321,7 @@ def check_line_cropper(case, mon, ctx):
     reg.lines.append(L.TextLine(id='l2', baseline=np.array([[300.0, 300.0]]), heights=[10.0, 5.0]))                       # single point
     reg.lines.append(L.TextLine(id='l3', baseline=np.array([[100.0, 700.0], [400.0, 705.0]]), heights=[20.0, 6.0]))        # two-point line
     reg.lines.append(L.TextLine(id='l4', baseline=np.array([[100.0, 800.0], [250.0, 803.0], [400.0, 801.0]]), heights=[20.0, 6.0]))   # three points
-    reg.lines.append(L.TextLine(id='l0', baseline=pts, heights=list(case['heights'])))                                     # the case's line, cropped LAST
+    reg.lines.append(L.TextLine(id='l0', baseline=pts, heights=heights_object(case)))                                      # the case's line, cropped LAST
     pl.regions.append(reg)
     del ctx.swallowed[:]
     with contextlib.redirect_stdout(io.StringIO()):
@@ -311,7 +336,29 @@ def check_line_cropper(case, mon, ctx):
             mon.violation('configured-height', {'via': 'LineCropper.process_page', 'line': line.id, 'shape': None if line.crop is None else list(line.crop.shape)})
     eng = ctx.ce.EngineLineCropper(line_height=case['H'], poly=case['poly'], scale=case['scale'])
     with contextlib.redirect_stdout(io.StringIO()):
-        direct = eng.crop(img, pts, case['heights'])
+        direct = eng.crop(img, pts, heights_object(case))
     last = reg.lines[-1]
     if last.crop is not None and (last.crop.shape != direct.shape or np.abs(last.crop.astype(int) - direct.astype(int)).max(initial=0) > 0):
         mon.violation('crop-independent-of-earlier-crops', {'via': 'LineCropper.process_page: the last line of a page vs the same line on a fresh cropper', 'shape': list(last.crop.shape), 'expected': list(direct.shape)})
+
+    # history on one layout and one long-lived LineCropper: the page is processed again after its lines moved and with another page image
+    img2 = image(ctx, {'smooth': 'checker', 'checker': 'noise', 'noise': 'smooth'}[case['image']])
+    sx, sy = case['shift']
+    moved = {}
+    for line in reg.lines:
+        line.baseline = np.asarray(line.baseline, dtype=np.float64) + np.array([sx, sy], dtype=np.float64)
+        line.heights = [float(line.heights[0]) + 3.0, float(line.heights[1]) + 1.0]
+        moved[line.id] = (line.baseline.copy(), list(line.heights))
+    with contextlib.redirect_stdout(io.StringIO()):
+        try:
+            lc.process_page(img2, pl)
+        except BaseException as e:
+            mon.violation('never-an-error', {'via': 'LineCropper.process_page, second pass', 'exception': repr(e)[:300]})
+            return
+        for line in reg.lines[2:]:
+            mon.count('line_cropper_second_pass_lines')
+            b, h = moved[line.id]
+            direct = ctx.ce.EngineLineCropper(line_height=case['H'], poly=case['poly'], scale=case['scale']).crop(img2, b, h)
+            if line.crop is None or line.crop.shape != direct.shape or np.abs(line.crop.astype(int) - direct.astype(int)).max(initial=0) > 0:
+                mon.violation('crop-independent-of-earlier-crops', {'via': 'LineCropper.process_page on a page that was processed before: the crop is not the band around the current baseline in the current image',
+                              'line': line.id, 'shape': None if line.crop is None else list(line.crop.shape), 'expected': list(direct.shape)}, mechanism='second-pass-stale-crop')
